@@ -144,17 +144,20 @@ def oracle(req, out):
     status, secs = split_sections(out)
     if status == "invalid":
         return "a conforming file was rejected"
-    if status not in ("ok", "err", "crash") or set(secs) != {"R", "T", "D", "P"}:
+    f = req.split(" ")
+    has_today = f[0] == "report-run"
+    if out == "argerr":
+        return "the filter flags were rejected"
+    if status not in ("ok", "err", "crash") or set(secs) != ({"R", "T", "D", "P"} if has_today else {"R", "T", "P"}):
         return "unreadable output: " + out[:160]
     c = EXPECT.get(req)
-    f = req.split(" ")
     agg, fill, diff, use_now = f[6][0].lower(), f[7] == "1", f[8] == "1", f[9] == "1"
     if c is not None and c.overflow:
         # outside the guard of the property (the figures do not fit klog's integers): K1 territory
         return "evaluation panicked (integer overflow)" if status == "crash" else None
     if status == "crash":
         return "a view panicked"
-    R, T, D, P = secs["R"], secs["T"], secs["D"], secs["P"]
+    R, T, D, P = secs["R"], secs["T"], secs.get("D", ["-"]), secs["P"]
     # ---- print --with-totals: per-entry figures add up to the per-record figure
     if P[0] in ("err", "crash", "fail"):
         return "print --with-totals failed"
@@ -173,7 +176,7 @@ def oracle(req, out):
         if prec != want:
             return "print --with-totals shows %r, the file says %r" % (prec[:4], want[:4])
         if use_now and not c.closeable:
-            if R != (["err"] if c.recs else ["none"]) or T != ["err"] or D != ["err"]:
+            if R != (["err"] if c.recs else ["none"]) or T != ["err"] or (has_today and D != ["err"]):
                 return "an open range that cannot be closed at this instant must be refused by report/total/today"
             return None
     if "err" in (R[0], T[0], D[0]):
@@ -254,6 +257,8 @@ def oracle(req, out):
                 if keys[0][0] != period_key(agg, lo) or keys[-1][0] != period_key(agg, hi):
                     return "report --fill: does not run from the first to the last record's period"
     # ---- klog today
+    if not has_today:
+        return None
     label, cur, oth, al = D
     o = cells(oth)
     a = al.split(",")
@@ -355,7 +360,7 @@ def pick_now(rng, doc):
     return today + (h, mi)
 
 def gen_views(tier, rng):
-    nfiles = 1500 if tier == "quick" else 100000
+    nfiles = 1500 if tier == "quick" else 60000
     out = []
     for _ in range(nfiles):
         d = make_doc(rng, tier)
@@ -363,7 +368,7 @@ def gen_views(tier, rng):
         text = d.render().hex() or "-"
         span = span_days(d)
         configs = set()
-        for _ in range(rng.choice([2, 3, 4, 5]) if tier == "quick" else rng.choice([1, 2, 3])):
+        for _ in range(rng.choice([2, 3, 3, 4]) if tier == "quick" else rng.choice([1, 2, 3])):
             agg = rng.choice("dwmqy")
             fill = rng.random() < 0.5
             if fill:
@@ -373,10 +378,155 @@ def gen_views(tier, rng):
                 if span > limit:
                     fill = False
             configs.add((agg, fill, rng.random() < 0.6, rng.random() < 0.5))
+        closeable = Case(d, now, "d", False, False, True).closeable
         for agg, fill, diff, use_now in sorted(configs):
+            if use_now and not closeable and rng.random() < 0.7:
+                use_now = False        # keep the share of refused --now runs moderate
             req = "report-run %d %d %d %d %d %s %d %d %d %s" % (now + (rng.choice(AGG_NAMES[agg]), fill, diff, use_now, text))
             EXPECT[req] = Case(d, now, agg, fill, diff, use_now)
             out.append(req)
+    return out
+
+# ------------------------------------------------------------------ filtered views
+
+import copy
+
+class Sub:
+    """the records a filter selects, shaped like a document for Case"""
+    def __init__(self, records):
+        self.records = records
+
+def month_len(y, m):
+    return specgen.dim(y, m)
+
+def period_bounds(kind, ymd):
+    """first and last day (as ordinals) of the week / month / quarter / year containing the date"""
+    y, m, d = ymd
+    if kind == "week":
+        dt, sh = pydate(y, m, d)
+        mon = ordinal(ymd) - (dt.isoweekday() - 1)
+        return mon, mon + 6
+    if kind == "month":
+        return ordinal((y, m, 1)), ordinal((y, m, month_len(y, m)))
+    if kind == "quarter":
+        q = (m - 1) // 3
+        return ordinal((y, 3 * q + 1, 1)), ordinal((y, 3 * q + 3, month_len(y, 3 * q + 3)))
+    return ordinal((y, 1, 1)), ordinal((y, 12, 31))
+
+def pick_filter(rng, doc, today):
+    """(flag tokens, lo, hi, entry kind or None): a date filter whose meaning the property text fixes, sometimes with an
+    entry-type filter; lo/hi are inclusive day numbers (None = open)"""
+    def arg_date():
+        if doc.records and rng.random() < 0.8:
+            o = ordinal(rng.choice(doc.records).ymd) + rng.choice([0, 0, 0, 1, -1, 7, -7, 31, -40])
+        else:
+            o = ordinal((rng.randrange(1, 9999), rng.randint(1, 12), rng.randint(1, 28)))
+        return max(ordinal((1, 1, 2)), min(ordinal((9998, 12, 30)), o))
+    def tok(name, o=None, text=None):
+        if o is None and text is None:
+            return name
+        if text is None:
+            y, m, d = from_ordinal(o)
+            text = ("%04d-%02d-%02d" if rng.random() < 0.7 else "%04d/%02d/%02d") % (y, m, d)
+        return name + ":" + text.encode().hex()
+    kind = rng.choice(["date", "since", "since", "until", "until", "since-until", "since-until", "after", "before", "after-before",
+                       "period", "period", "period", "day", "this-last", "this-last", "none"])
+    flags, lo, hi = [], None, None
+    ot = ordinal(today)
+    if kind == "date":
+        o = arg_date(); flags = [tok("date", o)]; lo = hi = o
+    elif kind == "since":
+        o = arg_date(); flags = [tok("since", o)]; lo = o
+    elif kind == "until":
+        o = arg_date(); flags = [tok("until", o)]; hi = o
+    elif kind == "since-until":
+        a, b = arg_date(), arg_date()
+        if rng.random() < 0.8: a, b = min(a, b), max(a, b)
+        flags = [tok("since", a), tok("until", b)]; lo, hi = a, b
+    elif kind == "after":
+        o = arg_date(); flags = [tok("after", o)]; lo = o + 1
+    elif kind == "before":
+        o = arg_date(); flags = [tok("before", o)]; hi = o - 1
+    elif kind == "after-before":
+        a, b = arg_date(), arg_date()
+        if rng.random() < 0.8: a, b = min(a, b) - 1, max(a, b) + 1
+        flags = [tok("after", a), tok("before", b)]; lo, hi = a + 1, b - 1
+    elif kind == "period":
+        ymd = from_ordinal(arg_date())
+        pk = rng.choice(["week", "month", "quarter", "year"])
+        if pk == "week":
+            key = period_key("w", ymd)
+            if not (1 <= key[0] <= 9998):
+                pk = "month"
+            else:
+                text = "%04d-W%s" % (key[0], ("%02d" if rng.random() < 0.5 else "%d") % key[1])
+        if pk == "month": text = "%04d-%02d" % ymd[:2]
+        if pk == "quarter": text = "%04d-Q%d" % (ymd[0], (ymd[1] - 1) // 3 + 1)
+        if pk == "year": text = "%04d" % ymd[0]
+        flags = [tok("period", text=text)]
+        lo, hi = period_bounds(pk, ymd)
+    elif kind == "day":
+        which = rng.choice(["today", "yesterday", "tomorrow"])
+        flags = [which]; lo = hi = ot + {"today": 0, "yesterday": -1, "tomorrow": 1}[which]
+    elif kind == "this-last" and 2 <= today[0] <= 9998:
+        pk = rng.choice(["week", "month", "quarter", "year"])
+        this = rng.random() < 0.5
+        flags = [("this" if this else "last") + rng.choice(["-", ""]) + pk]
+        lo, hi = period_bounds(pk, today)
+        if not this:
+            lo, hi = period_bounds(pk, from_ordinal(lo - 1))
+    et = None
+    if rng.random() < 0.15:
+        et = rng.choice(["duration", "duration-positive", "duration-negative", "range", "open-range"])
+        flags.append("entry-type:" + rng.choice([et, et.upper(), et.replace("-", "_")]).encode().hex())
+    rng.shuffle(flags)
+    return flags, lo, hi, et
+
+def entry_matches(et, e):
+    if e.kind == "range": return et == "range"
+    if e.kind == "open": return et == "open-range"
+    return et == "duration" or (et == "duration-positive" and e.d.mins() >= 0) or (et == "duration-negative" and e.d.mins() < 0)
+
+def select(doc, lo, hi, et):
+    out = []
+    for r in doc.records:
+        o = ordinal(r.ymd)
+        if (lo is not None and o < lo) or (hi is not None and o > hi):
+            continue
+        if et is not None:
+            es = [e for e in r.entries if entry_matches(et, e)]
+            if not es:
+                continue
+            r = copy.copy(r); r.entries = es
+        out.append(r)
+    return Sub(out)
+
+def gen_filtered(tier, rng):
+    nfiles = 500 if tier == "quick" else 20000
+    out = []
+    for _ in range(nfiles):
+        d = make_doc(rng, tier)
+        for _ in range(4):
+            if len(d.records) >= 4:
+                break
+            d = make_doc(rng, tier)         # a filter is more telling on a file with several records
+        now = pick_now(rng, d)
+        text = d.render().hex() or "-"
+        flags, lo, hi, et = pick_filter(rng, d, now[:3])
+        sub = select(d, lo, hi, et)
+        span = span_days(sub)
+        closeable = Case(sub, now, "d", False, False, True).closeable
+        for _ in range(rng.choice([1, 2])):
+            agg = rng.choice("ddwwmqy" if span < 60 else "dwmqy")
+            fill = rng.random() < 0.5 and span <= {"d": 500, "w": 3000, "m": 8000, "q": 8000, "y": 8000}[agg]
+            diff, use_now = rng.random() < 0.6, rng.random() < 0.4
+            if use_now and not closeable and rng.random() < 0.7:
+                use_now = False
+            req = "report-filtered %d %d %d %d %d %s %d %d %d %d %s%s" % (now + (rng.choice(AGG_NAMES[agg]), fill, diff, use_now, len(flags),
+                                                                                "".join(f + " " for f in flags), text))
+            if req not in EXPECT:
+                EXPECT[req] = Case(sub, now, agg, fill, diff, use_now)
+                out.append(req)
     return out
 
 def nontrivial(req, out):
@@ -392,7 +542,7 @@ def k12_week_year_label(req, out):
     """`klog report --aggregate week` whose first row lies in ISO year -1 (records dated 0000-01-01 / 0000-01-02):
     weekAggregator starts from the sentinel year -1, so the first row is printed without its year."""
     f = req.split(" ")
-    if f[0] != "report-run" or f[6][0].lower() != "w":
+    if f[0] not in ("report-run", "report-filtered") or f[6][0].lower() != "w":
         return False
     _, secs = split_sections(out)
     R = secs.get("R", [])
@@ -401,13 +551,13 @@ def k12_week_year_label(req, out):
 def file_overflows(req):
     """the durations written in the file add up beyond int64"""
     import re
-    text = bytes.fromhex(req.split(" ")[10]) if req.split(" ")[10] != "-" else b""
+    text = bytes.fromhex(req.split(" ")[-1]) if req.split(" ")[-1] != "-" else b""
     tot = sum(int(h) * 60 for h in re.findall(rb"(\d+)h", text)) + sum(int(m) for m in re.findall(rb"(\d+)m", text))
     return tot > I64
 
 def k1_views_overflow(req, out):
     """K1 as seen by the views: the file's durations add up beyond int64, `klog total` / `report` / `today` panic"""
-    return req.startswith("report-run ") and out.startswith("crash ") and file_overflows(req)
+    return req.startswith("report-") and out.startswith("crash ") and file_overflows(req)
 
 def suites():
     return [
@@ -416,4 +566,9 @@ def suites():
                    "`klog print --with-totals` on one conforming file (0-70 records, unsorted / descending, duplicate dates, clustered around New Year and ISO "
                    "weeks 52/53/1, quarter and month ends, leap days, 0000-01-01 and 9999-12-31, negative totals, open ranges) at an instant on / after / away "
                    "from a record's date; non-trivial = every view answered and the report has at least two rows"),
+        Suite("filtered", gen_filtered, oracle=oracle, nontrivial=nontrivial, env={"GOMAXPROCS": "2"},
+              rule="the same files with one filter: --date / --since / --until / --after / --before / --period (year, month, quarter, ISO week) / --today, "
+                   "--yesterday, --tomorrow / --this-* and --last-* week, month, quarter, year (both spellings), sometimes with --entry-type, on `klog report`, "
+                   "`klog total`, `klog print --with-totals`; the oracle selects the records by date interval (Python datetime) and entry kind and then asks "
+                   "for the same partition; non-trivial = at least two rows"),
     ]
